@@ -77,6 +77,16 @@ class C05(PropBase):
             # Tikka & Karvanen style: X -> Z -> Y with X <-> Y, experiment on Z available in a source domain
             cases.append({"g": {"nodes": [0, 1, 2], "dir": [[0, 1], [1, 2]], "bid": [[0, 2]]}, "X": [0], "Y": [2], "domains": [{"Z": [1], "W": [2]}]})
             cases.append({"g": {"nodes": [0, 1], "dir": [[0, 1]], "bid": [[0, 1]]}, "X": [0], "Y": [1], "domains": [{"Z": [0], "W": [1]}]})
+            # one query per shape of run of the ID recursion that goes through line 7 (= TRSO line 10: c-factors from the carried distribution),
+            # alone (TRSO must then agree with ID) and with a random source domain
+            for c in GG.trace_corpus(rng, tier, conditions=False, quick_n=60, keep=lambda shape: "7" in shape.split("|")[1]):
+                doms = []
+                if rng.random() < 0.4:
+                    Z = list(set(GG.rand_subset(rng, c["g"]["nodes"], 1, 2)) | ({rng.choice(c["X"])} if rng.random() < 0.6 else set()))
+                    W = GG.rand_subset(rng, [v for v in c["g"]["nodes"] if v not in Z], 1, 2)
+                    if W:
+                        doms.append({"Z": Z, "W": W})
+                cases.append({"g": c["g"], "X": c["X"], "Y": c["Y"], "domains": doms})
         nmax = 5 if tier == "quick" else 6
         while len(cases) < n:
             r0 = rng.random()
